@@ -8,7 +8,7 @@ import numpy as np
 import kv
 
 ID = 'C05'
-COQ_MODELS = ['MQV', 'MPose']
+COQ_MODELS = ['MQV', 'MPose', 'MPoseMemo']
 COQ_HEADER = 'From Coq Require Import Uint63.\nFrom KV.Model Require Import MQV MPose.'
 CASE_TYPE = 'MPose.case'
 CHECK_FN = 'MPose.check_case'
@@ -20,10 +20,15 @@ RULE = ('one case = a chain of 1..6 poses (quaternion class: unit / scaled 1e-3.
         'On it the real code is called: compose(chain), compose of both halves at chosen split points and of the two '
         'results, inverse of poses and of the composition, compose([p,inv]), compose([inv,p]), inverse(inverse), '
         'transform_points by the composition and successively, and back by the inverse; operands are snapshotted '
-        '(bit level) around every call. Every call with its float result is one model-vs-code comparison inside Coq. '
+        '(bit level) around every call; every pose of the chain is also applied and inverted on its own, in chain order. '
+        'A nearby stream makes chains whose rotations are close to each other but not equal (slow turn, refined copy, '
+        'revisited rotation, slightly rescaled quaternion; steps 1e-9..1e-3), so that a result depending on the arguments '
+        'of an earlier call shows. Every call with its float result is one model-vs-code comparison inside Coq. '
         'A separate malformed stream (r/t None, zero quaternion, empty chain, 4-column points) checks only the modelled '
         'outcome. Non-trivial = valid chain of length >= 2 or with >= 2 points; distinct = distinct input bits.')
-TRUSTED = ['numpy-quaternion product and inverse() are modelled as the Hamilton product and conj(q)/|q|^2 '
+TRUSTED = ['harness/tables/pose.py: the ast scan of kapture/core/PoseTransform.py that lists instance attributes and mutable '
+           'module-level state (premises of the history models, theorem C05_source_keeps_no_state)',
+           'numpy-quaternion product and inverse() are modelled as the Hamilton product and conj(q)/|q|^2 '
            '(checked by the correspondence on every call, not assumed by the theorems)',
            'IEEE-754 rounding of the implementation is outside the model: inputs enter Coq as the exact rationals of the '
            'doubles, and results are compared with the relative tolerance 1e-9 stated by the property']
@@ -217,6 +222,77 @@ def _valid_case(rng, n=None, qcls=None, tcls=None):
             'splits': splits, 'inv_of': inv_of, 'qclass': qmode, 'tclass': tmode, 'program': gen_program(rng, n)}
 
 
+def _qmul(a, b):
+    return [a[0] * b[0] - a[1] * b[1] - a[2] * b[2] - a[3] * b[3],
+            a[0] * b[1] + a[1] * b[0] + a[2] * b[3] - a[3] * b[2],
+            a[0] * b[2] - a[1] * b[3] + a[2] * b[0] + a[3] * b[1],
+            a[0] * b[3] + a[1] * b[2] - a[2] * b[1] + a[3] * b[0]]
+
+
+NEARBY_KINDS = ['slow_turn', 'slow_turn', 'refined', 'revisit', 'scaled_copy', 'nearby_t']
+
+
+def _nearby_case(rng, how=None):
+    """Chains whose rotations are CLOSE TO EACH OTHER BUT NOT EQUAL (consecutive poses of a slowly turning device, a
+    pose and its refined copy, a rotation revisited after another one, the same rotation at a slightly different
+    quaternion scale), mixed with exact repetitions: every call must be a function of ITS OWN arguments, however
+    similar the arguments of the previous calls were.  Steps 1e-9..1e-3 (rad, or relative per component)."""
+    how = how or rng.choice(NEARBY_KINDS)
+    n = rng.choice([2, 2, 3, 3, 4, 5, 6])
+    base_cls = rng.choice(['unit', 'unit', 'scaled', 'axis', 'int', 'near180', 'nearunit'])
+    base = gen_quat(rng, base_cls)
+    step = 10 ** rng.uniform(-9, -3)
+    qs = []
+    if how == 'slow_turn':
+        ax = _axis(rng)
+        for k in range(n):
+            h = step * k / 2
+            qs.append(_qmul([math.cos(h)] + [math.sin(h) * v for v in ax], base))
+    elif how == 'refined':
+        m = max(abs(v) for v in base)
+        qs = [base] + [[v + rng.uniform(-1, 1) * step * rng.choice([abs(v), m]) for v in base] for _ in range(n - 1)]
+    elif how == 'revisit':
+        ax, h = _axis(rng), step / 2
+        near = _qmul([math.cos(h)] + [math.sin(h) * v for v in ax], base)
+        other = gen_quat(rng, rng.choice(QCLASSES))
+        qs = [list(rng.choice([base, near, near, other])) for _ in range(n)]
+        qs[0], qs[1] = base, near
+    elif how == 'scaled_copy':
+        ks = [1 + rng.choice([-1, 1]) * step * rng.uniform(0.1, 1) for _ in range(n - 1)]
+        qs = [base] + [[v * k for v in base] for k in ks]
+    else:                                     # nearby_t: rotations as in slow_turn, translations nearly equal too
+        ax = _axis(rng)
+        for k in range(n):
+            h = step * k / 2
+            qs.append(_qmul([math.cos(h)] + [math.sin(h) * v for v in ax], base))
+    tcls = rng.choice(['zero', 'small', 'small', 'moderate', 'int', 'axis', 'large'])
+    ts = [gen_trans(rng, tcls) for _ in range(n)]
+    if how == 'nearby_t':
+        t0 = gen_trans(rng, rng.choice(['small', 'moderate', 'int']))
+        ts = [[v * (1 + k * step) for v in t0] for k in range(n)]
+    poses = [{'r': [float(v) for v in q], 't': t} for q, t in zip(qs, ts)]
+    if rng.random() < 0.3:
+        rng.shuffle(poses)
+    npts = rng.choice([1, 2, 3, 3, 5])
+    ncols = rng.choice([3, 3, 6])
+    mag = rng.choice([1.0, 10.0, 1e3])
+    splits = sorted(rng.sample(range(1, n), min(n - 1, 2)))
+    inv_of = sorted(rng.sample(range(n), 2))
+    # programs on live objects: the laws on one pose right after the laws on its neighbour
+    prog = []
+    order = list(range(n))
+    rng.shuffle(order)
+    for i in order[:3]:
+        prog.append(['laws', i])
+    if rng.random() < 0.5:
+        i, j = order[0], order[1]
+        prog += [['inverse', i], ['inverse', j], ['compose', [i, j]], ['compose', [j, i]], ['laws', j]]
+    return {'kind': 'valid', 'direct_max': rng.choice([2, 2, 2, 3]), 'poses': poses,
+            'points': gen_points(rng, npts, ncols, mag, 'float64'), 'ncols': ncols, 'pdtype': 'float64',
+            'playout': rng.choice(['C', 'C', 'F']), 'splits': splits, 'inv_of': inv_of,
+            'qclass': 'nearby-' + how, 'tclass': tcls if how != 'nearby_t' else 'nearby', 'program': prog}
+
+
 def _malformed_case(rng):
     c = _valid_case(rng, n=rng.choice([1, 2, 3]))
     c['kind'] = 'malformed'
@@ -261,9 +337,13 @@ def gen_cases(rng, tier):
                 c['poses'][1]['r'] = [float(x) for x in qb]
                 c['points'] = c['points'][:2]
                 cases.append(c)
-    n_rand = 220 if tier == 'quick' else 3000
+    n_rand = 200 if tier == 'quick' else 3000
     for _ in range(n_rand):
         cases.append(_valid_case(rng))
+    for how in NEARBY_KINDS[1:]:              # rotations close to each other but not equal
+        cases.append(_nearby_case(rng, how))
+    for _ in range(30 if tier == 'quick' else 400):
+        cases.append(_nearby_case(rng))
     n_bad = 40 if tier == 'quick' else 300
     for _ in range(n_bad):
         cases.append(_malformed_case(rng))
@@ -493,6 +573,11 @@ def _arr(case):
 
 def run_impl(case, ctx):
     R = _Runner(case.get('direct_max', 2))
+    # every case starts from the same process history: one conversion of a fixed rotation unrelated to any generated
+    # one, so that what a case observes cannot depend on the case that ran before it (replays and shrinking reproduce)
+    w = R.mk({'r': [1.5, -2.5, 0.5, 3.5], 't': [1.0, 2.0, 3.0]})
+    w.transform_points(np.zeros((1, 3)))
+    w.inverse()
     objs = [R.mk(s) for s in case['poses']]
     law = {'assoc': [], 'inv': []}
     X = _arr(case)
@@ -548,6 +633,12 @@ def run_impl(case, ctx):
     nq = math.sqrt(sum(v * v for v in q))
     Yn = R.transform(R.mk({'r': [v / nq for v in q], 't': case['poses'][i0]['t']}), X)
     law['single'] = {'i': i0, 'Y1': Y1.tolist() if Y1 is not None else None, 'Yn': Yn.tolist() if Yn is not None else None}
+    # every pose of the chain on its own, in chain order (the successive transforms above ran in reverse order):
+    # transform_points and inverse, each to be judged against the pose's own r, t only
+    law['each'] = []
+    for o in objs:
+        Ye, Ie = R.transform(o, X), R.inverse(o)
+        law['each'].append({'Y': Ye.tolist() if Ye is not None else None, 'I': _spec_of(Ie) if Ie is not None else None})
     law['history'] = _history(R, case, X)
     return {'calls': R.calls, 'law': law, 'mutations': R.mutations}
 
@@ -635,6 +726,18 @@ def oracle(case, obs):
             return 'transform_points did not return' + tag
         if len(X0) and np.max(np.abs(np.array(e['back']).reshape(-1, 3) - X0)) > TOL * 2 * (float(np.max(np.abs(X0))) + s):
             return 'transform by the inverse does not undo the transform' + tag
+    # every pose alone: R(q/|q|) x + t with an independently written matrix, and the inverse written out:
+    # rotation of conj(q), translation -R(q)^T t -- whatever was converted in the calls before
+    for p, e in zip(poses, law.get('each') or []):
+        if e['Y'] is None or e['I'] is None:
+            return 'transform_points / inverse of a single valid pose did not return'
+        Rp, tp, s = _rotm(p['r']), np.array(p['t']), _tmax(p)
+        if len(X0) and np.max(np.abs(np.array(e['Y']).reshape(-1, 3) - (X0 @ Rp.T + tp))) > TOL * (float(np.max(np.abs(X0))) + s):
+            return 'point transform of a pose is not R(q/|q|) x + t of that pose (it depends on other calls)'
+        q = p['r']
+        d = _same_pose(e['I'], {'r': [q[0], -q[1], -q[2], -q[3]], 't': list(-(Rp.T @ tp))}, 2 * s)
+        if d:
+            return f'inverse of a pose is not (conj q, -R(q)^T t) of that pose ({d})'
     X, Y, Z = np.array(law['X']).reshape(-1, 3), law['Y'], law['Z']
     if Y is None or Z is None or law['back'] is None:
         return 'transform_points did not return'
@@ -806,7 +909,9 @@ LEVEL_TEXT = ('Theorems in coq/Props/C05.v hold for all rational poses with non-
               'associativity (any bracketing of a chain), left/right inverse, involution of inverse, inverse of a composition, '
               'transform by a composition = successive transforms right-most first, distances preserved, scale/sign invariance, '
               'the rotation matrix is orthogonal with determinant 1, the code never raises on such poses, and the code branch for '
-              'nearly-unit quaternions deviates from the exact rotation by less than 2e-14 per entry. The model is tied to the code '
+              'nearly-unit quaternions deviates from the exact rotation by less than 2e-14 per entry; over whole process histories '
+              'a remembered quaternion->matrix conversion is invisible iff it is reused only for quaternions with the same matrix '
+              '(HEAD: never; np.allclose: refuted). The model is tied to the code '
               'by running compose / inverse / transform_points on generated chains and comparing every result inside Coq.')
 LEVEL_NOTE = ('Float rounding of the implementation is outside the model (tolerance 1e-9 from the property). Non-modification of '
               'operands is checked by bit-level snapshots in the harness, not proved. Poses with None parts / zero quaternion are '
